@@ -1,4 +1,5 @@
 import PyaisVerif.Lemmas.TrackerRefine
+import PyaisVerif.Lemmas.Broker
 /-!
 # C15 — tracker events mirror the life cycle of each track
 -/
@@ -34,6 +35,49 @@ theorem C15_pop_event (s : TrkState) (m : Int) :
     (popTrack s m).2.1 = if s.tracks.any (·.mmsi = m) then [(Ev.deleted, m)] else [] :=
   Refine.popTrack_events s m
 
+/-- **Every subscriber is told exactly what happened, once.** Whatever sequence of
+`register_callback` / `remove_callback` calls produced the subscriptions, a callback receives, in
+order, exactly the events of the kinds it is subscribed to — each once, also when it was registered
+twice for the same event. -/
+theorem C15_delivery (sops : List SubOp) (ordered : Bool) (ttl : Option Int) (ops : List TrkOp) (cb : Nat) :
+    ((deliver (sops.foldl subStep []) (trkRun ordered ttl ops).events).filter (·.1 = cb)).map (·.2) =
+      (trkRun ordered ttl ops).events.filter fun (e, _) => decide ((e, cb) ∈ sops.foldl subStep []) :=
+  deliver_calls _ (subs_nodup sops [] List.nodup_nil) _ cb
+
+/-- registering twice is registering once; removing a registration restores the subscriptions -/
+theorem C15_subscribe_idempotent (s : Subs) (e : Ev) (cb : Nat) :
+    attach (attach s e cb) e cb = attach s e cb ∧
+    ((e, cb) ∉ s → detach (attach s e cb) e cb = s) := by
+  constructor
+  · have hm : (attach s e cb).contains (e, cb) = true :=
+      List.contains_iff_mem.mpr ((mem_attach s e cb (e, cb)).mpr (Or.inr rfl))
+    generalize hs : attach s e cb = s' at hm ⊢
+    unfold attach
+    rw [hm]
+    rfl
+  · intro hn
+    have hc : s.contains (e, cb) = false := by
+      cases h : s.contains (e, cb) with
+      | false => rfl
+      | true => exact absurd (List.contains_iff_mem.mp h) hn
+    unfold attach detach
+    simp only [hc, Bool.false_eq_true, if_false]
+    rw [List.erase_append_right _ hn]
+    simp
+
+/-- a subscription to one event does not touch the subscriptions to the others -/
+theorem C15_subscriptions_independent (s : Subs) (h : s.Nodup) (e e' : Ev) (cb cb' : Nat)
+    (hne : (e', cb') ≠ (e, cb)) :
+    ((e', cb') ∈ attach s e cb ↔ (e', cb') ∈ s) ∧ ((e', cb') ∈ detach s e cb ↔ (e', cb') ∈ s) := by
+  constructor
+  · rw [mem_attach]; exact ⟨fun h => h.elim id (fun h => absurd h hne), Or.inl⟩
+  · rw [mem_detach s h]; exact ⟨fun h => h.1, fun h => ⟨h, hne⟩⟩
+
+/-- non-vacuity: one callable for two events, registered twice for one of them -/
+example :
+    deliver ([SubOp.attach .created 1, .attach .created 1, .attach .deleted 1, .attach .updated 2].foldl subStep [])
+      [(.created, 7), (.updated, 7), (.deleted, 7)] = [(1, .created, 7), (2, .updated, 7), (1, .deleted, 7)] := by decide
+
 /-- non-vacuity: create, update, expire inside an update call, re-create -/
 example :
     (trkRun false (some 10) [.update 7 [] (some 0), .update 7 [] (some 1), .tick 50, .update 7 [] (some 2),
@@ -44,4 +88,7 @@ example :
 #print axioms C15_rejected_silent
 #print axioms C15_update_event
 #print axioms C15_pop_event
+#print axioms C15_delivery
+#print axioms C15_subscribe_idempotent
+#print axioms C15_subscriptions_independent
 end C15
